@@ -599,6 +599,45 @@ def lattice_case(args):
     return {"worst": worst, "where": where, "above_1e-8": int(above), "points": tot}
 
 
+# ------------------------------------------------------------------------------------------------
+# caller-supplied (looser) epsrel with weakly coupled baths: small cells far from the origin, T = 0 exponential cut-off,
+# against the closed form.  The requested relative tolerance must stay a RELATIVE one.
+
+def loose_case(args):
+    alpha, zeta, eps = args
+    lib = oq.PowerLawSD(alpha, zeta, 1.0, "exponential", temperature=0.0)
+    x, w = O.gl(64)
+    worst, where = 0.0, None
+    for k in (3, 5, 8, 10):
+        for shape, t2 in (("square", None), ("rectangle", k + 0.5)):
+            kw = {} if t2 is None else {"time_2": t2}
+            got = complex(lib.correlation_2d_integral(1.0, float(k), shape=shape, epsrel=eps, **kw))
+            a_, b_ = float(k), (k + 1.0 if t2 is None else t2)
+            wf = O.weight_rect(a_, b_, 1.0)
+            lo, hi = a_ - 1.0, b_
+            nodes = lo + 0.5 * (hi - lo) * (x + 1)
+            # piecewise-linear weight: integrate each linear piece separately (break points at a_, a_+... are inside)
+            ref = 0.0
+            brk = sorted(set([lo, a_, b_ - 1.0, b_, hi]))
+            for p0, p1 in zip(brk[:-1], brk[1:]):
+                if p1 - p0 <= 0:
+                    continue
+                nd = p0 + 0.5 * (p1 - p0) * (x + 1)
+                ref += np.sum(0.5 * (p1 - p0) * w * wf(nd) * np.array([complex(O.closed_c(alpha, zeta, 1.0, float(u))) for u in nd]))
+            rel = abs(got - ref) / abs(ref)
+            # the library forms a cell from 3-4 eta values, each integrated to max(epsabs = 1.49e-8, epsrel * |eta|):
+            # deviations below 16 * epsabs + 10 * epsrel * (sum of |eta| at the corner times) are what was asked for
+            # (the tolerance rule of the main family)
+            corners = (b_, a_, b_ - 1.0, a_ - 1.0)
+            s_eta = sum(abs(complex(lib.eta_function(float(c_)))) for c_ in corners)
+            if abs(got - ref) > 16 * 1.49e-8 + 10 * eps * s_eta and rel > worst:
+                worst, where = rel, (shape, k)
+    return {"worst": float(worst), "where": where}
+
+
+LOOSE_TOL = 2e-3
+
+
 WINDOW_TOL = 1e-4          # relative to |C(0)| dt^2; the library integrates a discontinuous integrand with dblquad
 
 
@@ -637,6 +676,13 @@ def run(tier, seed):
                               {"kind": "scale", "args": list(j)}))
         else:
             smax = max(smax, max(x[1] for x in r["recs"]))
+    qj = [(a_, z, e_) for a_ in (1e-3, 1e-2, 0.25) for z in (1.0, 3.0) for e_ in (1e-5, 1e-7)]
+    qres_ = pmap(loose_case, qj, seed=seed)
+    for j, r in zip(qj, qres_):
+        if r["worst"] > max(LOOSE_TOL, 200 * j[2]):
+            rep.add(Violation("PowerLawSD|caller-epsrel|exponential|T=0|cells-differ-from-closed-form",
+                              f"alpha={j[0]} zeta={j[1]} epsrel={j[2]}: {r['where']} off by {r['worst']:.1e} relative",
+                              {"kind": "loose", "args": list(j)}))
     lj = [(z, wc, lo, lo + 6) for z in (1.0, 3.0, 0.5) for wc in (1.0, 4.0)
           for lo in (range(50, 122, 6) if tier == "thorough" else (70, 76))]
     lres = pmap(lattice_case, lj, seed=seed)
@@ -738,6 +784,7 @@ def run(tier, seed):
     print(f"[C12] worker cpu {cpu:.0f} s", file=sys.stderr)
     rep.coverage = {
         "evaluations": n_eval + sum(len(r["recs"]) for r in wres),
+        "caller_epsrel_family": {"cases": len(qj), "worst_relative_deviation": max(r["worst"] for r in qres_), "tolerance": LOOSE_TOL},
         "time_lattice_family": {"points": sum(r["points"] for r in lres), "tolerance": LATTICE_TOL,
                                 "points_off_by_more_than_1e-8_relative": sum(r["above_1e-8"] for r in lres),
                                 "worst_relative_deviation": max(r["worst"] for r in lres)},
@@ -797,6 +844,11 @@ def run(tier, seed):
 def replay(rp):
     kind = rp["kind"]
     ob = rp.get("ob")
+    if kind == "loose":
+        j = rp["args"]
+        r = loose_case(tuple(j))
+        return {"obs": r, "violation": "PowerLawSD|caller-epsrel|exponential|T=0|cells-differ-from-closed-form"
+                if r["worst"] > max(LOOSE_TOL, 200 * j[2]) else None}
     if kind == "lattice":
         r = lattice_case(tuple(rp["args"]))
         return {"obs": r, "violation": "PowerLawSD|eta-on-the-time-lattice|exponential|T=0|differs-from-closed-form"
